@@ -266,6 +266,18 @@ class CallMixin(object):
         else:
             t = ("ncall", mname, next_id())
         kind = kinds.pop() if len(kinds) == 1 else None
+        if mname in ("__mul__", "__rmul__") and recv is not None and "INFINITY" in cls and len(args) == 1:
+            # A5: a point with declared order n satisfies e*P = O iff n | e.  When the scalar is
+            # proven to lie strictly between two consecutive multiples of n the product is not
+            # the identity.
+            e_ = self.as_lin(args[0])
+            if e_ is not None and not isinstance(args[0], VSym):
+                n_ = Lin.sym(("call", term_of(recv), "order"))
+                for c_ in (0, 1, 2):
+                    if st.proves_ge(e_ - n_.scale(c_) - 1) and st.proves_ge(n_.scale(c_ + 1) - 1 - e_):
+                        cls = set(cls) - {"INFINITY"}
+                        self.assumptions.append(("non-identity", self.site(ctx, node), "A5: scalar strictly between %d*n and %d*n, n the declared order of the point" % (c_, c_ + 1)))
+                        break
         nullable = False
         if recv is not None and mname in ("x", "y") and self.may_be_infinity(st, recv):
             nullable = True
@@ -539,6 +551,8 @@ class CallMixin(object):
             return [(obj, st)]
         if self.policy(init) == "inline" and init.qname not in self.active:
             outs = self.call_function(ctx, st, init, [obj] + list(args), kwargs, node)
+            if init.qname in self.watch_results:
+                self.watch_results[init.qname].append((ctx.qname, self.site(ctx, node), [obj] + list(args), dict(kwargs), st, outs))
             return [(obj, s) for _v, s in outs]
         for exc, wit in sorted(self.lite.escapes(init.qname)):
             self.raise_(ctx, st, node, exc, "may escape from %s (%s)" % (init.qname, wit), kind="summary")
